@@ -262,11 +262,21 @@ void h_init_fini(void)
 	VIN(lp_id_t, n_lps);
 	VASSUME(n_lps >= 1 && n_lps <= NL);
 	env_reset((unsigned)n_lps);
-	sched_budget = 0;
+	VIN(unsigned, budget);
+	VASSUME(budget <= 2);
+	sched_budget = budget; /* the model may schedule events while it handles LP_INIT */
 	serial_simulation_init();
 	for(unsigned k = 0; k < NL; k++)
 		VASSERT(init_calls[k] == (k < n_lps ? 1U : 0U) && other_calls[k] == 0, "C10.init LP_INIT delivered exactly once to every LP before anything else");
-	VASSERT(heap_count(queue) == 0, "C10.init the LP_INIT events are consumed");
+	unsigned scheduled = budget - sched_budget;
+	VASSERT(heap_count(queue) == scheduled, "C10.init the LP_INIT events are consumed and exactly the events scheduled during initialisation stay pending");
+	for(unsigned k = 0; k < NE + NL + 1; k++)
+		if(k < n_msgs) {
+			bool is_init = M[k]->m_type == LP_INIT;
+			VASSERT(in_heap(M[k]) == (is_init ? 0U : 1U), "C10.init every event scheduled at initialisation is pending exactly once; no LP_INIT event lingers");
+			VASSERT(freed_cnt[k] == (is_init ? 1U : 0U), "C10.init each LP_INIT buffer is released once, no scheduled event is released");
+		}
+	VASSERT(heap_ok(), "C10.init the event list is a well-formed heap after initialisation");
 	serial_simulation_fini();
 	for(unsigned k = 0; k < NL; k++)
 		VASSERT(fini_calls[k] == (k < n_lps ? 1U : 0U), "C10.fini LP_FINI delivered exactly once to every LP");
